@@ -39,6 +39,7 @@ def session_case(case):
     """history on one driver: read X; write E0; set states; writews W1; new; readws W1; dump; write E1;
     writews W2; new; readws W2; dump; writews W3"""
     d = p21run._G['d']
+    d.recycle_if_big()
     D = d.dir
     paths = {k: os.path.join(D, k) for k in ('x', 'e0', 'w1', 'e1', 'w2', 'w3')}
     for p in paths.values():
